@@ -198,21 +198,7 @@ func runC12(ch *Choices, cfg *RunCfg) (o *Outcome) {
 	o = newOutcome()
 	setMapOrder(ch.Salt("mapsalt"))
 	// ---- shared inputs and scripts (all drawn before any scheduling decision) ----
-	g := NewGen(ch, c12Domain())
-	nin := ch.Range(1, 4, "ninputs")
-	sh := &c12Shared{}
-	for i := 0; i < nin; i++ {
-		sh.inputs = append(sh.inputs, g.Value())
-	}
-	nforeign := ch.Range(1, 4, "nforeign")
-	for i := 0; i < nforeign; i++ {
-		if ch.Intn(3, "foreign.kind") == 0 {
-			b, _, _ := foreignStream(ch, false)
-			sh.foreign = append(sh.foreign, b)
-		} else {
-			sh.foreign = append(sh.foreign, foreignEvolvedObject(ch))
-		}
-	}
+	// task count first: many tasks get small values, so that a run stays short
 	var ntasks int
 	switch ch.Pick([]int{55, 30, 10, 5}, "ntasks.kind") {
 	case 0:
@@ -223,6 +209,31 @@ func runC12(ch *Choices, cfg *RunCfg) (o *Outcome) {
 		ntasks = ch.Range(8, 24, "ntasks")
 	default:
 		ntasks = ch.Range(32, 64, "ntasks")
+	}
+	dom := c12Domain()
+	if ntasks > 8 {
+		dom.BigStrings, dom.BigBinaries, dom.MaxListLen = false, false, 4
+	}
+	g := NewGen(ch, dom)
+	nin := ch.Range(1, 4, "ninputs")
+	sh := &c12Shared{}
+	for i := 0; i < nin; i++ {
+		if ch.Intn(6, "input.manyclasses") == 1 {
+			// one message that mentions many distinct classes (class tables beyond their initial capacity)
+			sh.inputs = append(sh.inputs, g.ManyClasses(ch.Range(12, 24, "manyclasses.k")))
+			o.Probes["input with 12..24 distinct classes in one message"]++
+			continue
+		}
+		sh.inputs = append(sh.inputs, g.Value())
+	}
+	nforeign := ch.Range(1, 4, "nforeign")
+	for i := 0; i < nforeign; i++ {
+		if ch.Intn(3, "foreign.kind") == 0 {
+			b, _, _ := foreignStream(ch, false)
+			sh.foreign = append(sh.foreign, b)
+		} else {
+			sh.foreign = append(sh.foreign, foreignEvolvedObject(ch))
+		}
 	}
 	pair := ch.Intn(2, "inst.pair") == 1
 	pooled := ch.Intn(3, "pooled") == 1
@@ -271,6 +282,7 @@ func runC12(ch *Choices, cfg *RunCfg) (o *Outcome) {
 			decPool = hessian.NewDecoderPool(poolSize, ZooTypeMap)
 		}
 		s := NewSched(ch, policy, meanQ)
+		s.MaxSteps = 300_000_000 // hard cap only; the progress oracle compares with the solo cost afterwards
 		if stalls {
 			s.StallP = ch.Intn(40, "stallp")
 		}
@@ -337,6 +349,7 @@ func runC12(ch *Choices, cfg *RunCfg) (o *Outcome) {
 	if s.Overrun {
 		return o.fail("c12/no-progress", "run", "run exceeded %d simulated steps", s.MaxSteps)
 	}
+	concurrentSteps := s.Steps
 	if ntasks >= 32 {
 		o.Probes[">= 32 tasks"]++
 	}
@@ -368,6 +381,11 @@ func runC12(ch *Choices, cfg *RunCfg) (o *Outcome) {
 		for _, op := range scripts[t] {
 			expected[t] = append(expected[t], c12Exec(c12NewInst(pair), sh, op))
 		}
+	}
+
+	soloSteps := clock.steps
+	if lim := 4*soloSteps + 1_000_000; concurrentSteps > lim && !cfg.Strict || concurrentSteps > 2*lim {
+		o.fail("c12/no-progress", "steps", "%d tasks: the concurrent phase executed %d library statements, the same calls run alone %d (limit 4x + 1e6): calls do not return what they return alone within comparable work", ntasks, concurrentSteps, soloSteps)
 	}
 
 	// ---- oracles ----
